@@ -11,7 +11,8 @@ from core import Case
 from props import _sg
 
 PID = "C13"
-LEAN_MODULES = ["KrroodVerif.Props.C13"]
+LEAN_MODULES = ["KrroodVerif.Props.C13", "KrroodVerif.Props.C13Table", "KrroodVerif.Props.C13Step",
+                "KrroodVerif.Props.C13StepComplete"]
 THEOREMS = [
     "KrroodVerif.SG.C13_inv_init",
     "KrroodVerif.SG.C13_inv_step",
@@ -21,14 +22,82 @@ THEOREMS = [
     "KrroodVerif.SG.C13_query_fresh",
     "KrroodVerif.SG.C13_cex_reevaluated",
     "KrroodVerif.SG.C13_cex_diamond",
+    # second tie: the registry methods as tables of container operations (Props/C13Table.lean)
+    "KrroodVerif.SG.addNode_eq_interp",
+    "KrroodVerif.SG.removeNode_eq_interp",
+    "KrroodVerif.SG.removeNode_original_eq_interp",
+    "KrroodVerif.SG.sweep_eq_interp",
+    "KrroodVerif.SG.ensure_eq_interp",
+    "KrroodVerif.SG.clear_eq_interp",
+    "KrroodVerif.SG.recSubs_eq_interp",
+    "KrroodVerif.SG.recSubsI_nodup",
+    "KrroodVerif.SG.getInstances_eq_interp",
+    "KrroodVerif.SG.getInstances_mem_iff",
+    "KrroodVerif.SG.C13_census_of_table_eq",
+    "KrroodVerif.SG.C13_census_table",
+    "KrroodVerif.SG.C13_run_by_table",
+    # the interleaving of lazily consumed evaluations with the history (Model/SymbolGraphStep.lean, Props/C13Step.lean)
+    "KrroodVerif.SG.begin_expected",
+    "KrroodVerif.SG.C13_stepwise_census",
+    "KrroodVerif.SG.C13_stepwise_partial",
+    "KrroodVerif.SG.C13_stepwise_snapshot",
+    "KrroodVerif.SG.C13_cex_stepwise",
+    "KrroodVerif.SG.step_heapAdm",
+    "KrroodVerif.SG.C13_stepwise_complete",
+    "KrroodVerif.SG.C13_stepwise_exact_snapshot",
 ]
+TRANSLATED = ["KrroodVerif.SG.Translated.C13_table_translated_eq_model",
+              "KrroodVerif.SG.Translated.C13_translated_census"]
+
+
+def extra_obligations():
+    """Second tie: regenerate the container-operation tables of add_node / remove_node / remove_dead_instances /
+    get_instances_of_type / ensure_wrapped_instance / clear / recursive_subclasses from /repo's CURRENT source (Python ast)
+    and have the kernel re-check that they equal the model's tables (`SG.table`, for which `*_eq_interp` prove that the
+    table interpreters are the model functions) and the census property for the regenerated tables."""
+    import os
+    import re
+    import subprocess
+    import core
+    from translate.c13_translate import generate as gen, TranslationError
+    try:
+        text = gen(core.REPO)
+    except (TranslationError, SyntaxError, OSError, RecursionError, AssertionError) as e:
+        return [{"name": n, "ok": False, "detail": f"translator rejected the source: {e}"} for n in TRANSLATED]
+    tmp = core.LEAN_DIR / ".lake" / "audit"
+    tmp.mkdir(parents=True, exist_ok=True)
+    f = tmp / f"C13Translated_{os.getpid()}.lean"
+    f.write_text(text + "".join(f"#print axioms {n}\n" for n in TRANSLATED))
+    try:
+        p = subprocess.run(["lake", "env", "lean", str(f)], cwd=str(core.LEAN_DIR), capture_output=True, text=True, timeout=600)
+    finally:
+        try:
+            f.unlink()
+        except OSError:
+            pass
+    out = " ".join(((p.stdout or "") + (p.stderr or "")).split())
+    res = []
+    for n in TRANSLATED:
+        m = re.search(r"'" + re.escape(n) + r"' depends on axioms: \[([^\]]*)\]", out)
+        none = re.search(r"'" + re.escape(n) + r"' does not depend on any axioms", out)
+        ax = [a.strip() for a in m.group(1).split(",")] if m else ([] if none else None)
+        ok = p.returncode == 0 and ax is not None and set(ax) <= core.ALLOWED_AXIOMS
+        res.append({"name": n, "ok": ok, "axioms": ax,
+                    "detail": "regenerated tables:\n" + text[text.find("def table"):text.find("/-- the methods")]
+                              + (p.stdout or "")[-1500:] + (p.stderr or "")[-800:]})
+    return res
+
 MODEL_FUNCTION = ("SG.step / SG.addNode / SG.removeNode / SG.sweep / SG.instancesOf / SG.evalQuery "
-                  "(Model/SymbolGraph.lean), run under the LIFO allocator by Drive/SG.lean")
+                  "(Model/SymbolGraph.lean), SG.advance / SG.SRun.between / SG.SRun.start / SG.SRun.next "
+                  "(Model/SymbolGraphStep.lean), run under the LIFO allocator by Drive/SG.lean; SG.table and its interpreters "
+                  "(Model/SymbolGraphTable.lean) regenerated from the source by harness/translate/sg_translate.py")
 TRUSTED = [
     "Lean 4.33 kernel; axioms of each theorem listed under coverage.theorems",
     "hand-written model Model/SymbolGraph.lean of symbol_graph.py, Symbol.__new__, let(T, None), evaluate() -> "
     "remove_dead_instances, HashedIterable caching",
     "this correspondence harness (history generators, the weak-reference census) and the S-expression driver",
+    "second tie: harness/translate/sg_translate.py (statement recognisers; strict, normalising) and the instruction semantics of "
+    "Model/SymbolGraphTable.lean; the interpreters run on SG.table are PROVED equal to the model functions (Props/C13Table.lean)",
 ]
 ASSUMPTIONS = [
     "CPython: an object is reclaimed by gc.collect() exactly when it is unreachable from the harness's references, "
